@@ -72,7 +72,8 @@ def flurry_job(rng, jid, whole=0.12):
         h = {}
     elif shape == "same":
         h = {k: 0 for k in keys}
-        keys = keys[:7]          # at most 7 entries per bin: list bins only
+        # more than 8 entries in one bin of a table shorter than 64: put calls try_presize(2n) (modelled);
+        # runs in which a bin is treeified (table of 64+) are outside the specification and are skipped
     elif shape == "two":
         h = {k: (k % 2) * 1 + 4 * (k % 3) for k in keys}
     else:
